@@ -89,6 +89,9 @@ def run(ctx):
         p = spec.gen_program(prng, f"d{k:04d}")
         if kind == "reply":
             spec.gen_reply_table(prng, p)
+        elif kind == "ep":
+            # a legacy reply method (`fn reply(&self, ctx: ReplyCtx, reply: Reply)`) and overridden entry points
+            p = spec.gen_ep_config_program(prng, f"d{k:04d}", prng.sample(spec.ALL_EP_KINDS, prng.choice([0, 1, 2])), prng.random() < 0.5, "legacy", False)
         decorate(prng, p)
         R = render.R(p)
         jid = f"d{k:04d}"
